@@ -54,10 +54,14 @@ def decorate(tb, rng, sep):
 
 
 # ---------------------------------------------------------------------------------- generate
-def gen_file(rng, tier, i, mode):
+def gen_file(rng, tier, i, mode, force=None):
+    force = force or {}
     fmt = rng.choice(["export", "export", "tigerxml", "brackets", "brackets", "discobrackets"])
     if mode == "damage":
         fmt = rng.choice(["brackets", "brackets", "brackets", "discobrackets"])
+    if force.get("gz") and fmt == "tigerxml":
+        fmt = "export"
+    fmt = force.get("fmt", fmt)
     enc = rng.choice(["utf-8", "utf-8", "latin-1", "utf-16"])
     opts = {}
     kw = {}
@@ -85,10 +89,11 @@ def gen_file(rng, tier, i, mode):
     tb = model.gen_treebank(rng, k)
     if rng.random() < 0.02 and mode == "clean":
         tb = []                                   # a treebank file without any sentence
-    if rng.random() < 0.04 and mode == "clean":
+    if (rng.random() < 0.04 or force.get("long")) and mode == "clean":
         # a long file: crosses the 8192 / 16384 character and byte buffer boundaries
         k["n_max"] = max(k["n_max"], 5)
-        tb = model.gen_treebank(rng, k, nsent=rng.randint(120, 400), sid_pattern="consecutive")
+        tb = model.gen_treebank(rng, k, nsent=rng.randint(120, 250 if force.get("long") else 400),
+                                sid_pattern="consecutive")
     if rng.random() < 0.004 and mode == "clean" and fmt in ("brackets", "discobrackets"):
         k["n_max"], k["n_min"], k["words"] = 8, 5, ["len", "ascii"]
         tb = model.gen_treebank(rng, k, nsent=rng.randint(700, 1100), sid_pattern="consecutive")
@@ -133,12 +138,18 @@ def gen_file(rng, tier, i, mode):
             decorate(tb, rng, sep)
     if fmt == "discobrackets" and mode == "clean" and rng.random() < 0.3:
         opts["disco_reordered"] = True
-    gz = rng.random() < 0.25 and fmt != "tigerxml"
+    gz = (rng.random() < 0.25 or bool(force.get("gz"))) and fmt != "tigerxml"
     ext = {"export": ".export", "tigerxml": ".xml", "brackets": ".mrg",
            "discobrackets": ".dbr"}[fmt]
     path = "/sim/w/f%d%s%s" % (i, ext, ".gz" if gz else "")
+    if force.get("dir"):
+        path = "/sim/w/%s/part%s%s" % (force["dir"], ext, ".gz" if gz else "")
     d = {"path": path, "fmt": fmt, "codec": codec, "tb": tb, "layout": rng.randrange(1 << 30),
          "enc": enc, "gz": gz, "kw": kw, "opts": opts}
+    if gz and rng.random() < 0.25:
+        # a gzip file of several members (cat a.gz b.gz, appended archives): member boundaries
+        # at these fractions of the content
+        d["gz_members"] = sorted(rng.random() for _ in range(rng.choice([1, 1, 2, 3])))
     if fmt == "tigerxml" and rng.random() < 0.4:
         d["enc_arg"] = rng.choice(["utf-8", "latin-1", "utf-16"])    # documented to be ignored
     return d
@@ -204,7 +215,17 @@ def generate(seed, tier):
     rng = random.Random(seed)
     mode = "clean" if rng.random() < 0.65 else "damage"
     nfiles = rng.choice([1, 1, 2, 3])
-    files = [gen_file(rng, tier, i, mode) for i in range(nfiles)]
+    if mode == "clean" and rng.random() < 0.025:
+        # gzip sources bigger than an I/O buffer, under the same name in different directories,
+        # read by readers that are alive at the same time
+        first = gen_file(rng, tier, 0, mode, {"gz": True, "long": True, "dir": "train"})
+        force = {"gz": True, "long": rng.random() < 0.5, "dir": "test"}
+        if rng.random() < 0.6:
+            force["fmt"] = first["fmt"]
+        files = [first, gen_file(rng, tier, 1, mode, force)]
+        nfiles = 2
+    else:
+        files = [gen_file(rng, tier, i, mode) for i in range(nfiles)]
     for f in files:
         if not rc.encodable(f["tb"], f["enc"]):
             f["enc"] = "utf-8"
